@@ -58,6 +58,7 @@ ENV = {
   'res._complete_trial': dict(self='res', trial='trial', best='trial'),
   'res._set_active': dict(self='res'),
   'alg.setup': dict(self='alg'), 'alg.propose': dict(self='alg', dna='dna'), 'alg.feedback': dict(self='alg', dna='dna'),
+  'alg._normalized_reward': dict(self='alg'),
   'evo._setup': dict(self='evo'), 'evo._propose': dict(self='evo', dna='dna'), 'evo._feedback': dict(self='evo', dna='dna'),
   'evo._evolve': dict(self='evo', child='dna', children='val'),
 }
@@ -96,6 +97,7 @@ METHODS = {
   ('res', '_complete_trial'): ('inline', 'res._complete_trial'), ('res', '_set_active'): ('inline', 'res._set_active'),
   ('res', 'get_latest_trial'): ('opaque', ['VLatest'], []), ('res', 'next_trial_id'): ('opaque', ['VTrials'], []),
   ('alg', 'setup'): ('inline', 'alg.setup'), ('alg', 'propose'): ('inline', 'alg.propose'), ('alg', 'feedback'): ('inline', 'alg.feedback'),
+  ('alg', '_normalized_reward'): ('inline', 'alg._normalized_reward'),
   ('alg', '_setup'): ('virtual', '_setup'), ('alg', '_propose'): ('virtual', '_propose'), ('alg', '_feedback'): ('virtual', '_feedback'),
   ('trial', 'get_reward_for_feedback'): ('opaque', ['VTStatus', 'VTInf', 'VTFinal'], []),
   ('pol', 'setup'): ('opaque', [], []), ('pol', 'should_stop_early'): ('opaque', [], []),
@@ -152,6 +154,9 @@ CONDS = {
   ('alg.feedback', 'self.multi_objective and isinstance(reward, float)'): 'CConst false',
   ('alg.feedback', 'not self.multi_objective and isinstance(reward, tuple)'): 'CConst false',
   ('alg.feedback', 'len(reward) != 1'): 'CConst false',
+  ('alg._normalized_reward', 'self.multi_objective and isinstance(reward, float)'): 'CConst false',
+  ('alg._normalized_reward', 'not self.multi_objective and isinstance(reward, tuple)'): 'CConst false',
+  ('alg._normalized_reward', 'len(reward) != 1'): 'CConst false',
   ('evo._setup', 'isinstance(self.population_init, tuple)'): 'CConst true',
   ('evo._propose', 'not self._pending_proposals'): 'CPendEmpty',
   ('evo._propose', 'self._population_initialized'): 'CPopInit',
